@@ -101,10 +101,11 @@ func stripIDs(e ref.Exp) ref.Exp {
 }
 
 type c20Member struct {
-	C      cfg.Config `json:"config"`
-	Style  cfg.Style  `json:"style"`
-	Script fx.Script  `json:"script"`
-	Labels []string   `json:"labels,omitempty"`
+	C      cfg.Config   `json:"config"`
+	Files  []cfg.Config `json:"files,omitempty"` // if set: C distributed over several input files (C stays the model's view)
+	Style  cfg.Style    `json:"style"`
+	Script fx.Script    `json:"script"`
+	Labels []string     `json:"labels,omitempty"`
 }
 
 type c20Case struct {
@@ -157,6 +158,9 @@ func c20Eval(t tb, c c20Case) {
 	var conts []*fx.Container
 	for _, m := range c.Members {
 		spec, err := singleFile(m.C, m.Style, cfgCase{}.Flags)
+		if len(m.Files) > 1 {
+			spec, _, err = memberSpec(c01Member{Files: m.Files, Style: m.Style})
+		}
 		if err != nil {
 			col.Exclude("serialiser-self-check")
 			continue
@@ -400,7 +404,12 @@ func TestC20(t *testing.T) {
 		var c c20Case
 		for i := 0; i < batch; i++ {
 			conf, labels := gen.Valid(rt, opts)
-			c.Members = append(c.Members, c20Member{C: conf, Style: drawStyle(rt), Script: drawConcurrentScript(rt, conf), Labels: labels.List()})
+			m := c20Member{C: conf, Style: drawStyle(rt), Script: drawConcurrentScript(rt, conf), Labels: labels.List()}
+			if n := rapid.IntRange(1, 3).Draw(rt, "nfiles"); n > 1 {
+				m.Files = gen.Split(rt, conf, n)
+				m.Labels = append(m.Labels, fmt.Sprintf("files:%d", len(m.Files)))
+			}
+			c.Members = append(c.Members, m)
 		}
 		c20Eval(rt, c)
 	})
